@@ -92,6 +92,9 @@ class FakeGenerator:
     process_model_body = process_jacobian_body = control_jacobian_body = control_covariance_body = model_body = _stub
 
 
+_CACHE: Dict[Any, Any] = {}
+
+
 class Witness:
     def __init__(self, ctx: core.Ctx):
         self.ctx = ctx
@@ -159,6 +162,14 @@ class Witness:
 
     def compile(self, v: Valuation, keep: Optional[str] = None):
         """-> (returncode, diagnostics mapped back to repo files where possible, tu text)"""
+        key = (self.ctx.repo, v.tag, "compile")
+        if key in _CACHE and keep is None:
+            return _CACHE[key]
+        res = self._compile(v, keep)
+        _CACHE[key] = res
+        return res
+
+    def _compile(self, v: Valuation, keep: Optional[str] = None):
         self.ctx.read("cpp/runtime/include/formak/runtime/ManagedFilter.h")
         self.ctx.read("cpp/include/formak/innovation_filtering.h")
         src = self.tu(v)
@@ -176,6 +187,19 @@ class Witness:
             shutil.rmtree(td, ignore_errors=True)
 
     def ast(self, v: Valuation, filt: str):
+        key = (self.ctx.repo, v.tag, "ast", filt)
+        if key not in _CACHE:
+            _CACHE[key] = self._ast(v, filt)
+        return _CACHE[key]
+
+    def prefetch(self, vals, filt="ExtendedKalmanFilter"):
+        """compile + AST of several valuations concurrently (clang processes run in parallel)"""
+        from concurrent.futures import ThreadPoolExecutor
+        jobs = [(v, "c") for v in vals] + [(v, "a") for v in vals]
+        with ThreadPoolExecutor(8) as ex:
+            list(ex.map(lambda j: self.compile(j[0]) if j[1] == "c" else self.ast(j[0], filt), jobs))
+
+    def _ast(self, v: Valuation, filt: str):
         src = self.tu(v)
         td = tempfile.mkdtemp(prefix="fvwit.")
         try:
